@@ -382,6 +382,31 @@ def _nfds():
     return len(os.listdir("/proc/self/fd"))
 
 
+PPMD_NOTE = "VF-NOTE pyppmd-thread-outlives-decode"
+
+
+def worker_init():
+    """Process-wide monitor at the pyppmd boundary: a native thread that is still there when decode() has returned (or raised) is
+    reported on stderr. The runner hands the worker's stderr to on_abnormal() when the process dies: leaked decoder threads keep
+    using their control block after the decoder is freed, and what dies then is whatever Python object got that memory next."""
+    import py7zr.compressor as C
+
+    orig = C.PpmdDecompressor.decompress
+    notes = [0]
+
+    def decompress(self_, data, max_length=-1):
+        n0 = _native_threads()
+        try:
+            return orig(self_, data, max_length)
+        finally:
+            if _native_threads() > n0 and notes[0] < 8:
+                notes[0] += 1
+                sys.stderr.write("%s (%d native threads before the call, %d after)\n" % (PPMD_NOTE, n0, _native_threads()))
+                sys.stderr.flush()
+
+    C.PpmdDecompressor.decompress = decompress
+
+
 class _PpmdBoundary:
     """Counts, at the library boundary, the native threads that appear during pyppmd decode calls."""
 
@@ -392,24 +417,62 @@ class _PpmdBoundary:
         self.orig = C.PpmdDecompressor.decompress
         self.calls = 0
         self.spawned = 0
+        self.system_errors = 0
+        self.feed_ok = True
+        self.feed_closed = False  # set when the warm-up is over: the record must not grow while the heap is being compared
+        self.feed = []  # what pyppmd's decoder objects are asked to do (first FEED_CAP operations): replayable without py7zr
+        self.real_decoder = C.pyppmd.Ppmd7Decoder
         mon = self
 
         def decompress(self_, data, max_length=-1):
             n0 = _native_threads()
             try:
                 return mon.orig(self_, data, max_length)
+            except SystemError:
+                mon.system_errors += 1
+                raise
             finally:
                 mon.calls += 1
                 mon.spawned += max(0, _native_threads() - n0)
 
         self.wrapped = decompress
+        ids = [0]
+
+        class Recorded:
+            def __init__(self_, order, mem):
+                ids[0] += 1
+                self_._i = ids[0]
+                mon._log(["new", self_._i, order, mem])
+                self_._d = mon.real_decoder(order, mem)
+
+            def decode(self_, data, max_length=-1):
+                if len(data) > 65536:
+                    mon.feed_ok = False  # not worth keeping: no replay for this history
+                mon._log(["dec", self_._i, bytes(data).hex() if len(data) <= 65536 else "", max_length])
+                return self_._d.decode(data, max_length)
+
+            needs_input = property(lambda self_: self_._d.needs_input)
+            eof = property(lambda self_: self_._d.eof)
+
+            def __del__(self_):
+                mon._log(["del", self_._i])
+
+        self.recorded = Recorded
+
+    FEED_CAP = 60
+
+    def _log(self, op):
+        if len(self.feed) < self.FEED_CAP and not self.feed_closed:
+            self.feed.append(op)
 
     def __enter__(self):
         self.C.PpmdDecompressor.decompress = self.wrapped
+        self.C.pyppmd.Ppmd7Decoder = self.recorded
         return self
 
     def __exit__(self, *a):
         self.C.PpmdDecompressor.decompress = self.orig
+        self.C.pyppmd.Ppmd7Decoder = self.real_decoder
 
 
 def _run_repeat(case):
@@ -455,6 +518,8 @@ def _run_repeat(case):
         else:
             fac = lambda: io.BytesIO(data)  # noqa: E731
 
+        ppmd_seen = {}
+
         def history(reps, warm, heap, budget):
             """-> (base, mid_heap, end, outcome, sequences, calls); heap() is read at quiescent points."""
             base = mid = None
@@ -463,6 +528,7 @@ def _run_repeat(case):
             with _PpmdBoundary() as pb:
                 for r in range(reps):
                     if r == warm:
+                        pb.feed_closed = True
                         gc.collect()
                         base = (_nfds(), threading.active_count(), _native_threads(), WK.rss_now_kb(), pb.spawned, heap(), pb.calls)
                     if r == warm + (reps - warm) // 2:
@@ -474,6 +540,7 @@ def _run_repeat(case):
                     ncalls += calls
                 gc.collect()
                 end = (_nfds(), threading.active_count(), _native_threads(), WK.rss_now_kb(), pb.spawned, heap(), pb.calls)
+            ppmd_seen.update(system_errors=ppmd_seen.get("system_errors", 0) + pb.system_errors, feed=ppmd_seen.get("feed") or (list(pb.feed) if pb.feed_ok else None))
             return base, mid, end, outcome, nseq, ncalls
 
         warm = 8
@@ -549,8 +616,19 @@ def _run_repeat(case):
                         for st in tracemalloc.Snapshot.load(snaps[-1]).filter_traces(flt).compare_to(tracemalloc.Snapshot.load(snaps[-3]).filter_traces(flt), "traceback")[:3]:
                             fr = [f for f in st.traceback if "/py7zr/" in f.filename] or list(st.traceback)
                             sites.append("%+d B in %+d blocks at %s:%d" % (st.size_diff, st.count_diff, os.path.basename(fr[-1].filename), fr[-1].lineno))
-                        viol.append({"key": "leak/heap/%s" % kind, "what": "%s: objects reachable in the interpreter grow steadily by %d bytes per session (input %d bytes; allocator growth %d B/session); "
-                                     "largest allocation sites: %s" % (tag, per, len(data), per_all, "; ".join(sites))})
+                        key = "leak/heap/%s" % kind
+                        what = "%s: objects reachable in the interpreter grow steadily by %d bytes per session (input %d bytes; allocator growth %d B/session); largest allocation sites: %s" % (
+                            tag, per, len(data), per_all, "; ".join(sites))
+                        if kind == "hostile-input" and ppmd_seen.get("system_errors") and ppmd_seen.get("feed"):
+                            # pyppmd's decode() failed with SystemError ('returned NULL without setting an exception') in these sessions. Does the
+                            # library alone, asked the very same things in a fresh process without any py7zr code, lose memory each time?
+                            alone = K.pyppmd_alone_leaks_on_failed_decode(ppmd_seen["feed"])
+                            obs["pyppmd_alone_replays"] = 1
+                            if alone:
+                                key = "codec-library/pyppmd-decode-error-leak"
+                                what = ("pyppmd's Ppmd7Decoder.decode() ends with SystemError (returned NULL without setting an exception) on this hostile stream and leaves its output block list behind: "
+                                        "the recorded calls replayed against pyppmd alone lose %d bytes in %d orphaned lists per 10 rounds (%d SystemErrors); symptom here: %s" % (alone[1], alone[0], alone[2], what))
+                        viol.append({"key": key, "what": what})
             finally:
                 tracemalloc.stop()
     cell = "repeat|%s|%s|%s|%s" % (cls, "+".join(seq), case["open"], outcome.split(":")[0])
@@ -861,6 +939,13 @@ def on_abnormal(case, kind, info):
         from vf.core import runner
 
         b = runner.blocked_inside(info)
+        if PPMD_NOTE in (info or "") and not (b and b[0].endswith("/py7zr/compressor.py") and b[3] == "PpmdDecompressor"):
+            # not inside decode() itself: but in this very process pyppmd's decoder threads outlived their decode() call on a hostile
+            # stream (the monitor at the boundary saw them), and such threads go on using memory that is freed with the decoder
+            # (gdb: the dying dict's keys object lies among the futex words the leaked threads wait on)
+            return K.result("violated", key="codec-library/pyppmd-decoder-crash-on-hostile-stream",
+                            what="family %s: %s in a process in which pyppmd decoder threads had outlived their decode() call on a hostile stream (%s); innermost Python frame %s" % (
+                                fam, kind, PPMD_NOTE, ("%s:%s" % (os.path.basename(b[0]), b[1])) if b else "unknown"))
         if b and b[0].endswith("/py7zr/compressor.py") and b[3] == "PpmdDecompressor":
             # the interpreter died inside pyppmd's decode() on a stream that is not a valid PPMd stream of the declared length
             return K.result("violated", key="codec-library/pyppmd-decoder-crash-on-hostile-stream",
